@@ -28,6 +28,18 @@ ENTRY h_threshold_monotone() {
   VASSERT(t1 <= t2, "CalculateThreshold is monotone: r1 <= r2 implies T(r1) <= T(r2)");
 }
 
+// Q1d: the documented split formula (high and low 32 bits computed separately and ADDED), with the product taken from the
+// same multiplication (under --fp-hooks both multiplications are the same abstract value for the same ratio)
+ENTRY h_threshold_formula() {
+  double r = any_non_nan();
+  VASSUME(r > 0.0 && r < 1.0);
+  uint64_t t = CalculateThreshold(r);
+  const double product = UINT32_MAX * r;
+  double hi = 0; double frac = modf(product, &hi);
+  double lo = ldexp(frac, 32) + product;
+  uint64_t want = (static_cast<uint64_t>(hi) << 32) + static_cast<uint64_t>(lo);
+  VASSERT(t == want, "threshold = (hi << 32) + lo of UINT32_MAX * ratio (carry from the low part included)");
+}
 struct NoAttrs : common::KeyValueIterable {
   bool ForEachKeyValue(nostd::function_ref<bool(nostd::string_view, common::AttributeValue)>) const noexcept override { return true; }
   size_t size() const noexcept override { return 0; }
